@@ -210,7 +210,10 @@ def wide_inputs_reached(S):
         AD.QR_CALLS.clear()
         lender = report.Check("C08", "quick", 0, "", level="other")
         try:
-            c08.run(lender, Session(S.p))
+            from ..harness import running
+
+            with running("C08"):
+                c08.run(lender, Session(S.p))
         except AnalysisError as e:
             S._qr_census = cached = (None, f"census failed: {e}")
             return cached
@@ -245,6 +248,29 @@ def check_rule_cases(p, m, fn, rule):
                 ok, st = True, "upper (y R^-1 = X - strictly_lower(X) + upper words)"
             out.append((label, ok, f"primal output is {sp}, rule's primal {sr}, rule's tangent {st}: {T.show(tan, 4)}", kind))
     return out
+
+
+def primal_consistency(p, m, fn, rule):
+    """(ok, detail): the first component a custom JVP rule returns IS the function's value -- under jax.jvp / jax.grad the rule's primal replaces the plain
+    evaluation, so a rule that returns something else changes *values* whenever the code is differentiated (and only then)."""
+    M, Md = T.atom("M"), T.atom("M_dot")
+    primal = eval_fn(p, m, fn, [M])
+    res = eval_fn(p, m, rule, [(M,), (Md,)])
+    if not (isinstance(res, (tuple, list)) and len(res) == 2):
+        return None, f"rule returns {T.show(res, 2)}"
+    got = res[0]
+    if T._freeze(got) == T._freeze(primal):
+        return True, f"rule's primal output = {T.show(primal, 3)}"
+
+    def is_qr(t, mode):
+        return isinstance(t, T.Term) and t.op.endswith("linalg.qr") and t.args and t.args[0] is M and t.kwargs.get("mode", "reduced") == mode
+
+    # R of the reduced factorisation is the R factor (mode="r") of the same matrix
+    if is_qr(primal, "r") and isinstance(got, T.Term) and got.op == "getitem" and got.args[1] == 1 and is_qr(got.args[0], "reduced"):
+        return True, "rule's primal output = R of qr(M, mode='reduced'), the function's value qr(M, mode='r')"
+    if is_qr(primal, "r") and any(is_qr(t.args[0], "reduced") for t in T.subterms(got) if isinstance(t, T.Term) and t.op == "getitem" and t.args[1] == 1):
+        return False, f"rule's primal output is {T.show(got, 4)}, not the R factor the function returns: under differentiation the value of the function changes"
+    return None, f"rule's primal output {T.show(got, 3)} not comparable with the function's value {T.show(primal, 3)}"
 
 
 # ---------------------------------------------------------------------------
@@ -587,6 +613,11 @@ def run(chk, S: Session):
             except AnalysisError as e:
                 r1.unknown(base, f"rule {rule.name} could not be analysed: {e}", where)
                 continue
+            try:
+                okp, detp = primal_consistency(p, m, fn, rule)
+            except AnalysisError as e:
+                okp, detp = None, str(e)
+            r1.require(okp, f"{base} primal output of the rule", detp, f"custom rule {rule.name}: {detp}", where)
             wide_reached = None
             for label, ok, detail, kind in cases:
                 construct = base if (len(cases) == 1 and kind == "all") else f"{base} [{label}]"
